@@ -223,6 +223,7 @@ func vfC07eval(c *vfC07Case, st map[string]int) error {
 func TestVfC07Handler(t *testing.T) {
 	run := vfh.Begin("C07", "handler")
 	defer run.End(t)
+	vfArmWatch(run, "C07")
 	run.Require("result-spans-epochs", "strict-subrange", "epochs>=2")
 	for _, p := range vfh.ReplayFiles("C07", "handler") {
 		var c vfC07Case
